@@ -7,6 +7,9 @@ Transliteration of the Rust, branch by branch. The t-digest is generic over a nu
 (`Props/C15.lean`) instantiate `α := Rat` (exact arithmetic), the driver (`Driver/D15.lean`) instantiates
 `α := Float` (IEEE doubles, `mul_add` emulated exactly in `Model/SketchesFloat.lean`).
 
+The public `add_weighted(value, weight)` is modelled with its weight parameter (`TDigest.addWeighted`; `add` is
+`addWeighted · 1`); a merge tree may contain `wleaf` leaves fed through it.
+
 `&mut self` = returned value. `f64::INFINITY` / `NEG_INFINITY` in the fields `min`/`max` of an empty
 digest = `none`. `f64::NAN` as a result = `none`. The `Vec<Centroid>` is a `List`.
 
@@ -134,13 +137,20 @@ def insertRev (c : Centroid α) : List (Centroid α) → List (Centroid α)
 /-- `let pos = centroids.iter().rposition(|c| c.mean <= value).map_or(0, |i| i + 1); centroids.insert(pos, new)` -/
 def insertByMean (c : Centroid α) (l : List (Centroid α)) : List (Centroid α) := (insertRev c l.reverse).reverse
 
-/-- `TDigest::add` (= `add_weighted(value, 1.0)`) -/
-def TDigest.add (d : TDigest α) (x : α) : TDigest α :=
-  if !isFinite x then d else
+/-- the guard of `add_weighted` on the weight: `!weight.is_finite() || weight <= 0.0` ⇒ the call is ignored -/
+def weightOk (w : α) : Bool := isFinite w && !decide (w ≤ zero)
+
+/-- `TDigest::add_weighted(value, weight)`: a non-finite value, or a weight that is not a positive finite number, is
+    ignored (`if !value.is_finite() || !weight.is_finite() || weight <= 0.0 { return; }`) -/
+def TDigest.addWeighted (d : TDigest α) (x w : α) : TDigest α :=
+  if !isFinite x || !weightOk w then d else
   let d1 : TDigest α :=
     { d with min := ominV d.min x, max := omaxV d.max x,
-             centroids := insertByMean ⟨x, one⟩ d.centroids, total := d.total + one }
+             centroids := insertByMean ⟨x, w⟩ d.centroids, total := d.total + w }
   if ofNat d1.centroids.length > d1.compression * two then d1.compress else d1
+
+/-- `TDigest::add` = `add_weighted(value, 1.0)` -/
+def TDigest.add (d : TDigest α) (x : α) : TDigest α := d.addWeighted x one
 
 /-- `TDigest::merge` -/
 def TDigest.merge (d o : TDigest α) : TDigest α :=
@@ -166,11 +176,14 @@ def quantileLoopWith (post : α → α) (mx target : α) : α → α → List (C
         post (left + fraction * (right - left))
     else quantileLoopWith post mx target c.mean next rest
 
-/-- `quantile` on a digest with at least one centroid (`min`/`max` are then finite numbers) -/
+/-- `quantile` on a digest with at least one centroid (`min`/`max` are then finite numbers): the two end-point
+    tests come FIRST, the single-centroid short cut after them (a single centroid built from fractional weights
+    has `min < max`: `q = 1` must answer `max`) -/
 def quantileCoreWith (post : α → α) (total : α) (cs : List (Centroid α)) (mn mx q : α) : α :=
   let q := clamp q zero one
-  if abs (q - zero) ≤ eps || cs.length == 1 then mn
+  if abs (q - zero) ≤ eps then mn
   else if abs (q - one) ≤ eps then mx
+  else if cs.length == 1 then mn
   else quantileLoopWith post mx (q * total) mn zero cs
 
 /-- `TDigest::quantile`; `none` = `f64::NAN` -/
@@ -179,6 +192,14 @@ def TDigest.quantile (d : TDigest α) (q : α) : Option α :=
   | [], _, _ => none
   | c :: cs, some mn, some mx => some (quantileCoreWith (fun x => clamp x mn mx) d.total (c :: cs) mn mx q)
   | _ :: _, _, _ => none   -- unreachable: a digest with a centroid has seen a finite value
+
+/-- the current `quantile` without the final clamp of `ad184d4` (exact arithmetic: the same function,
+    `quantile_eq_noclamp`) -/
+def TDigest.quantileNoClamp (d : TDigest α) (q : α) : Option α :=
+  match d.centroids, d.min, d.max with
+  | [], _, _ => none
+  | c :: cs, some mn, some mx => some (quantileCoreWith id d.total (c :: cs) mn mx q)
+  | _ :: _, _, _ => none
 
 /-- which branch of `quantile` answers `q`: the empty digest, the `min` / `max` short cuts, the `i`-th centroid
     of the walk, or the fall-through after the loop. Same tests, same order, same arithmetic as
@@ -198,8 +219,9 @@ def TDigest.cover (d : TDigest α) (q : α) : Cover :=
   | [] => .empty
   | c :: cs =>
     let q := clamp q zero one
-    if abs (q - zero) ≤ eps || (c :: cs).length == 1 then .min
+    if abs (q - zero) ≤ eps then .min
     else if abs (q - one) ≤ eps then .max
+    else if (c :: cs).length == 1 then .min
     else coverLoop (q * d.total) zero 0 (c :: cs)
 
 /-- `TDigest::quantiles` -/
@@ -239,25 +261,44 @@ def foldAdd (δ : α) (xs : List α) : TDigest α := xs.foldl TDigest.add (TDige
 /-- `build_from_group` (lifted path): fold, then one `compress` -/
 def buildFromGroup (δ : α) (xs : List α) : TDigest α := (foldAdd δ xs).compress
 
-/-- a merge tree: how the engine combined the partitions' accumulators -/
+/-- `create` + `add_weighted` for every (value, weight) pair (direct use of the public `TDigest`) -/
+def foldAddW (δ : α) (ps : List (α × α)) : TDigest α :=
+  ps.foldl (fun d p => d.addWeighted p.1 p.2) (TDigest.new δ)
+
+/-- a merge tree: how the engine (or a direct user of `TDigest`) combined the accumulators -/
 inductive MTree (α : Type) where
   | leaf (xs : List α)
   | built (xs : List α)
+  /-- a digest fed through the public `add_weighted` with (value, weight) pairs -/
+  | wleaf (ps : List (α × α))
   | node (l r : MTree α)
 
+/-- the values offered with an admissible weight (non-finite VALUES are still listed: that they are ignored is
+    `nonfinite_ignored_tree`; pairs whose WEIGHT is not a positive finite number are not inputs at all) -/
 def MTree.leaves : MTree α → List α
   | .leaf xs => xs
   | .built xs => xs
+  | .wleaf ps => (ps.filter (fun p => weightOk p.2)).map Prod.fst
   | .node l r => l.leaves ++ r.leaves
+
+/-- no `add_weighted` leaf: everything a pipeline builds (`add_input` has weight 1) -/
+def MTree.unit : MTree α → Bool
+  | .leaf _ => true
+  | .built _ => true
+  | .wleaf _ => false
+  | .node l r => l.unit && r.unit
 
 /-- `l.merge(&r)` at every inner node -/
 def MTree.eval (δ : α) : MTree α → TDigest α
   | .leaf xs => foldAdd δ xs
   | .built xs => buildFromGroup δ xs
+  | .wleaf ps => foldAddW δ ps
   | .node l r => (l.eval δ).merge (r.eval δ)
 
 /-! ## `Legacy`: the code before the C15 fixes (`ad184d4`: no clamp on merged means, none on the estimate;
-    `673b7b5`: `add` appended, so the centroids were unsorted between two compressions) -/
+    `673b7b5`: `add` appended, so the centroids were unsorted between two compressions; the `add_weighted` /
+    `quantile` fix: any weight was accepted and the single-centroid short cut of `quantile` came before the
+    `q = 1` test) -/
 namespace Legacy
 
 def compress (d : TDigest α) : TDigest α :=
@@ -287,17 +328,42 @@ def merge (d o : TDigest α) : TDigest α :=
     { d with min := ominO d.min o.min, max := omaxO d.max o.max,
              centroids := d.centroids ++ o.centroids, total := d.total + o.total }
 
+/-- `quantile` before the end-point tests were moved in front of the single-centroid short cut:
+    `if |q − 0| ≤ ε || len == 1 { return min }` came first -/
+def quantileCoreWith (post : α → α) (total : α) (cs : List (Centroid α)) (mn mx q : α) : α :=
+  let q := clamp q zero one
+  if abs (q - zero) ≤ eps || cs.length == 1 then mn
+  else if abs (q - one) ≤ eps then mx
+  else quantileLoopWith post mx (q * total) mn zero cs
+
+/-- `quantile` before `ad184d4` (no clamp on the estimate, short cut first) -/
 def quantile (d : TDigest α) (q : α) : Option α :=
   match d.centroids, d.min, d.max with
   | [], _, _ => none
   | c :: cs, some mn, some mx => some (quantileCoreWith id d.total (c :: cs) mn mx q)
   | _ :: _, _, _ => none
 
+/-- `quantile` between `ad184d4` and the `add_weighted` fix (clamp, short cut first) -/
+def quantileShortcutFirst (d : TDigest α) (q : α) : Option α :=
+  match d.centroids, d.min, d.max with
+  | [], _, _ => none
+  | c :: cs, some mn, some mx => some (quantileCoreWith (fun x => clamp x mn mx) d.total (c :: cs) mn mx q)
+  | _ :: _, _, _ => none
+
+/-- `add_weighted` before the fix: ordered insert (`673b7b5`), but ANY weight was accepted (zero, negative, NaN, ∞) -/
+def addWeighted (d : TDigest α) (x w : α) : TDigest α :=
+  if !isFinite x then d else
+  let d1 : TDigest α :=
+    { d with min := ominV d.min x, max := omaxV d.max x,
+             centroids := insertByMean ⟨x, w⟩ d.centroids, total := d.total + w }
+  if ofNat d1.centroids.length > d1.compression * two then d1.compress else d1
+
 def foldAdd (δ : α) (xs : List α) : TDigest α := xs.foldl add (TDigest.new δ)
 
 def eval (δ : α) : MTree α → TDigest α
   | .leaf xs => foldAdd δ xs
   | .built xs => compress (foldAdd δ xs)
+  | .wleaf ps => ps.foldl (fun d p => addWeighted d p.1 p.2) (TDigest.new δ)
   | .node l r => merge (eval δ l) (eval δ r)
 
 def approxQuantilesFinish (qs : List α) (d : TDigest α) : List (Option α) :=
@@ -382,6 +448,10 @@ def KMV.finish (a : KMV α) : KmvOut α :=
 inductive KTree (α : Type) where
   | leaf (xs : List α)
   | node (l r : KTree α)
+
+/-- `KMVApproxDistinctCount::build_from_group`: `let mut acc = self.create(); for v in values { acc.try_insert(rank(v)) }`
+    — literally the loop of an element-wise leaf -/
+def KTree.built (xs : List α) : KTree α := .leaf xs
 
 def KTree.leaves : KTree α → List α
   | .leaf xs => xs
